@@ -189,6 +189,13 @@ func checkC02(c *Ctx) {
 	c.Rule("C02-R15", "which parsers the collect loop tries depends on the terminal's description and on the scan (nothing pending / expiry) only, never on the modes switched on at the moment; the focus parser, which alone holds back a lone ESC on a terminal without ESC-introduced keys, is tried on every terminal")
 	c.Expect("C02-R15", 6)
 	checkCollectGates(c, p, "C02-R15", nil)
+	c.Rule("C02-R16", "the rune parser offers the decoder growing prefixes of the buffer, so that what it consumes is exactly the character it reports (one pass over everything buffered decodes as many characters as fit the output, reports the first and drops the rest: which keys arrive then depends on where the reads ended)")
+	c.Expect("C02-R16", 1)
+	if pr := p.Fn("tcell:(*tScreen).parseRune"); pr != nil {
+		c.asRule("C11-R1", "C02-R16", func() { checkPrefixLoop(c, p, pr, "C11-R1") })
+	} else {
+		c.Undecided("C02-R16", "parseRune", "-", "not found")
+	}
 	parsers := inputParsers(p)
 	if len(parsers) < 6 {
 		c.Undecided("C02-R1", "parsers", "-", fmt.Sprintf("found %d input parsers by signature, expected 6", len(parsers)))
